@@ -306,7 +306,26 @@ def verify(line):
 
 
 def verify_batch(lines):
-    return [r for r in (verify(l) for l in lines) if r is not None]
+    out = []
+    for l in lines:
+        r = verify(l)
+        if r is not None: out.append((r[0], r[1], l))
+    return out
+
+
+def replay(run):
+    """Best effort: re-judge the recorded producer line(s) with the reference (the implementation side is the recorded value)."""
+    curves = {}
+    lines = [l for l in open(run.replay).read().split('\n') if l and not l.startswith('#')]
+    for l in lines:
+        if l.startswith('EG\t'):
+            f = l.split('\t'); curves[int(f[1])] = (int(f[2]), int(f[3], 16), int(f[4], 16))
+    init_worker(curves)
+    for l in lines:
+        if l.startswith('EG\t'): continue
+        print('case     :', l[:300])
+        print('reference:', verify(l) or 'agrees with the recorded implementation output')
+    return 0
 
 
 def init_worker(curves):
@@ -316,6 +335,8 @@ def init_worker(curves):
 
 def main():
     run = Run('C50', 'exploration')
+    if run.replay:
+        return replay(run)
     ncpu = int(os.environ.get('VERIF_JOBS', '0') or 0) or os.cpu_count() or 4
     p = subprocess.run([run.harness, '--tier', run.tier], stdout=subprocess.PIPE, text=True, env=dict(os.environ, VERIF_DEADLINE_S=str(0.5 * run.deadline)))
     cases, stats, end, incomplete, curves = [], {}, None, False, {}
@@ -353,10 +374,11 @@ def main():
             done += 1
             if run.deadline_reached():
                 incomplete = True; pool.terminate(); break
-            for key, what in res:
+            for key, what, raw in res:
                 if key == 'HARNESS':
                     print('HARNESS-ERROR property=C50', what); return 2
-                run.violation(key, what, what)
+                eg = [c for c in cases if c.startswith('EG\t')] if raw[0] == 'E' and raw[:2] not in ('ED', 'EC', 'EX') else []
+                run.violation(key, what, '\n'.join(eg + [raw]) + '\n# ' + what)
     kinds = {}
     evals = 0
     for c in work:
